@@ -69,11 +69,24 @@ def main():
             rc = subprocess.run(["/verif/check", "run", "--property", p, "--tier", a.tier], env=e2, capture_output=True, text=True, timeout=7200)
             lines = [ln for ln in rc.stdout.splitlines() if ln.startswith("VIOLATION") or ln.startswith("  env=")]
             res["checks"][p] = {"rc": rc.returncode, "wall": round(time.time() - t0, 1), "violations": lines[:6]}
+            # the replay file must reproduce in a fresh process on the changed tree ...
+            paths = [ln.split("replay=")[1].strip() for ln in rc.stdout.splitlines() if ln.startswith("VIOLATION") and "replay=" in ln]
+            if paths:
+                rr = subprocess.run(["/verif/check", "replay", paths[0]], env=e2, capture_output=True, text=True, timeout=3600)
+                res["checks"][p]["replay_on_changed_tree_rc"] = rr.returncode
+                res["checks"][p]["replay_file"] = paths[0]
             if rc.returncode == 2:
                 res["checks"][p]["stderr"] = rc.stderr[-800:]
     finally:
         sh(f"git -C /repo worktree remove --force {wt}")
         shutil.rmtree(wt, ignore_errors=True)
+    # ... and must not reproduce on the unchanged tree
+    for p, c in res.get("checks", {}).items():
+        if c.get("replay_file"):
+            e3 = dict(os.environ, JSIM_OUT=out, PYTHONWARNINGS="ignore")
+            e3.pop("JSIM_REPO", None)
+            rr = subprocess.run(["/verif/check", "replay", c["replay_file"]], env=e3, capture_output=True, text=True, timeout=3600)
+            c["replay_on_unchanged_tree_rc"] = rr.returncode
     print(json.dumps(res, indent=1))
     return 0
 
